@@ -34,6 +34,9 @@ def run(prog, rep, tier):
         from ..absint import check_panic_freedom
         roots = [prog.one(r"rustybgp_table::policy::apply_import"), prog.one(r"rustybgp_table::policy::apply_export")]
         check_panic_freedom(prog, r1, roots, "C14", scope_crates=("rustybgp_table", "rustybgp_packet"))
+        if tier == "thorough":
+            r1b = rep.rule("R14.1r", "the same with release (wrapping) arithmetic: no index / slice site becomes reachable through a wrapped value")
+            check_panic_freedom(prog, r1b, roots, "C14", scope_crates=("rustybgp_table", "rustybgp_packet"), profile="release")
     except ImportError:
         r1.note("abstract interpreter not available in this build")
     r2 = rep.rule("R14.2", "mutations of existing PolicyTable entries are dominated by an in-use scan")
